@@ -40,6 +40,10 @@ def tdm_script(rng, with_params=False, with_loop=False):
             # the whole p-array is one template parameter, expanded over the declared shape
             lines.append("%s array %s[%d, %d] =\n    {%s}" % (ty, nm, rng.choice([1, 1, 2]), n, rng.choice(["x", "w", "arr", "p%d_data" % k])))
             continue
+        if rng.random() < 0.25:
+            rows = rng.randint(2, 3)
+            lines.append("%s array %s%s =\n%s" % (ty, nm, "[%d, %d]" % (rows, n) if shape else "", "\n".join("    " + ", ".join(elem(rng, ty) for _ in range(n)) for _ in range(rows))))
+            continue
         lines.append("%s array %s%s =\n    %s" % (ty, nm, shape, ", ".join(elem(rng, ty) for _ in range(n))))
     others = []
     # ordinary arrays whose names merely START like a p-array name (passed by value), and p-named scalars
